@@ -1,3 +1,4 @@
+\* generated by mkstorecfg.py - edge cover for C01
 CONSTANTS
   Kind = "bridge"
   Fixed = TRUE
